@@ -292,6 +292,23 @@ func jarExtraSemantics(env *Env, v Variant, a *Artifact, j *jarInfo, sib []byte,
 		out = append(out, SemMut{Class: "graft-sibling-signature", Site: "manifest+sf+block", Data: replace(map[string][]byte{j.mf.Name: sj.mfBytes, j.sf.Name: sj.sfBytes, j.block.Name: sj.blockDER}), Assert: true,
 			Why: "the sibling's manifest lists other files / digests"})
 	}
+	// detached content smuggled into the block: the sibling's block made to carry
+	// the sibling's .SF as encapsulated content verifies on its own, but the
+	// archive's .SF - which vouches for this archive's manifest - is not what it signs
+	if sib != nil {
+		if sj, err := jarInspect(sib, sibEnd); err == nil {
+			eb, err := cmsEmbedContent(sj.blockDER, sj.sfBytes)
+			if err != nil {
+				return nil, fmt.Errorf("embed content: %w", err)
+			}
+			out = append(out, SemMut{Class: "graft-sibling-signature", Site: "block-with-embedded-sf", Data: replace(map[string][]byte{j.block.Name: eb}), Assert: true,
+				Why: "the block signs the sibling's .SF carried inside it; this archive's .SF is unsigned"})
+		}
+	}
+	if eb, err := cmsEmbedContent(j.blockDER, j.sfBytes); err == nil {
+		out = append(out, SemMut{Class: "embed-detached-content", Site: "block-with-own-sf", Data: replace(map[string][]byte{j.block.Name: eb}), Assert: false,
+			Why: "the same .SF inside and outside the block: nothing protected changed"})
+	}
 	out = append(out, cmsSemantics(env, v, j.blockDER, func(nb []byte) ([]byte, error) {
 		return replace(map[string][]byte{j.block.Name: nb}), nil
 	})...)
